@@ -153,6 +153,9 @@ var checkC01Synth = def("C01/synth", func(c struct{ FEN string }) error {
 
 func TestC01_synth(t *testing.T) {
 	runRapid(t, "C01/synth", 24000, func(t *rapid.T) struct{ FEN string } {
+		if rapid.IntRange(0, 5).Draw(t, "epcheck") == 0 {
+			return struct{ FEN string }{gen.EPCheck(t).FEN()}
+		}
 		return struct{ FEN string }{gen.Synth(t).FEN()}
 	}, func(c struct{ FEN string }) error {
 		stats.Sample("C01/synth", c.FEN)
